@@ -271,6 +271,9 @@ type alias struct {
 func New(opts ...RunnerOption) (*Runner, error) {
 	r := &Runner{
 		usedNew:        true,
+		// Options such as Params("-o") may print; StdIO overrides these.
+		stdout: io.Discard,
+		stderr: io.Discard,
 		openHandler:    DefaultOpenHandler(),
 		readDirHandler: DefaultReadDirHandler2(),
 		statHandler:    DefaultStatHandler(),
@@ -296,9 +299,6 @@ func New(opts ...RunnerOption) (*Runner, error) {
 		if err := Dir("")(r); err != nil {
 			return nil, err
 		}
-	}
-	if r.stdout == nil || r.stderr == nil {
-		StdIO(r.stdin, r.stdout, r.stderr)(r)
 	}
 	return r, nil
 }
